@@ -8,6 +8,8 @@ package sysfs
 // harnesses so that the real accessor/filter/closest-node code is executed.
 
 import (
+	"strconv"
+
 	idset "github.com/intel/goresctrl/pkg/utils"
 )
 
@@ -122,4 +124,14 @@ func VerifNewSystem(cpus []VerifCPU, nodes []VerifNode) System {
 		panic(err)
 	}
 	return sys
+}
+
+// VerifSetNodePaths points every NUMA node of a system built by VerifNewSystem
+// at <root>/node<id>, so that the real MemoryInfo() reads <root>/node<id>/meminfo
+// (real files natively; the engine's file-system model under symbolic execution).
+func VerifSetNodePaths(s System, root string) {
+	sys := s.(*system)
+	for id, n := range sys.nodes {
+		n.path = root + "/node" + strconv.Itoa(id)
+	}
 }
